@@ -97,10 +97,20 @@ def history(ctx, fedjax, rng, nrounds, window, nclusters, allow_empty_domain, ba
     if not ev['weights_simplex']:
       notes.append(f'round {r + 1}: domain weights {w.tolist()} params {island.params_list(s_agn.params)} window {win} counts {counts}')
     # ---- apfl
+    if r % 2 == 1:
+      # a branch from the same state with another cohort (a rolled-back / what-if round): its table is the table so far
+      # plus that cohort, and it leaves the state it started from alone
+      alt = sorted(rng.sample(range(1, ncl + 1), rng.randint(1, ncl)))
+      s_alt, _ = apfl.apply(s_apfl, [(ids[c - 1], dss[c - 1], keys[c - 1]) for c in alt])
+      have = sorted(ids.index(cid) + 1 for cid in s_apfl.client_states)
+      got_alt = sorted(ids.index(cid) + 1 for cid in s_alt.client_states)
+      if got_alt != sorted(set(have) | set(alt)):
+        notes.append(f'round {r + 1}: a branch with cohort {alt} from a state holding {have} holds {got_alt}')
+        ev['coefficients_in_unit_interval'] = False      # (reported through the flag the specification binds)
     s_apfl, _ = apfl.apply(s_apfl, clients)
     ev['stored'] = sorted(ids.index(cid) + 1 for cid in s_apfl.client_states)
     coefs = [np.asarray(x, np.float64) for cs in s_apfl.client_states.values() for x in jax.tree_util.tree_leaves(cs.interpolation_coefficients)]
-    ev['coefficients_in_unit_interval'] = bool(all(np.all(np.isfinite(c)) and np.all(c >= 0) and np.all(c <= 1) for c in coefs))
+    ev['coefficients_in_unit_interval'] = ev.get('coefficients_in_unit_interval', True) and bool(all(np.all(np.isfinite(c)) and np.all(c >= 0) and np.all(c <= 1) for c in coefs))
     # ---- hyp_cluster
     before = [c10.fingerprint((p, o)) for p, o in zip(s_hyp.cluster_params, s_hyp.opt_states)]
     cparams = [np.array(island.params_list(p), np.float64) for p in s_hyp.cluster_params]
